@@ -25,8 +25,8 @@ PROPS = {
         explain='Replay-loop arms proved equal to the replay rule replay_entry (O-C01-replay assertions, loop invariant I-C01-replay-items); '
                 'every mutator proved to write exactly the entry whose replay on the pre-state gives the post-state (O-C01-commute-*, O-C12-one); '
                 'entry codec proved inverse for all four kinds (lemma_parse_ser_entry, lemma_parse_ser_items); reader hands its exact cursor to the writer (O-C01-cursor).',
-        kani_quick=[], kani_thorough=['K-mrs-0', 'K-mrs-1'],
-        trusted=[FS, 'MultiRecord::serialize (bounded K-mrs-0/1: empty batch and one payload of <= 2 bytes; two payloads exceed 12 GB in CBMC)', 'MemQueues::empty_queues (assumed: yields exactly the empty queues, each once)'],
+        kani_quick=[], kani_thorough=[],
+        trusted=[FS, 'MultiRecord::{serialize,serialize_with_pos} are VERIFIED over the assumed contracts of bytes::Buf (R10: a cursor over a byte string; chunk() a non-empty prefix while bytes remain) and of (start..).zip(it) (R19); the payload iterator is assumed to obey vstd\'s iterator laws and to be finite (iter_ok, a precondition of append_records)', 'MemQueues::empty_queues (assumed: yields exactly the empty queues, each once)'],
         not_decided=['that GC never deletes a file still needed (Arc strong counts, see C06)', 'BufWriter flush on drop (std)',
                      'directory listing', 'the glue between the spec-level lemmas (L-C01 lemma_replay_history, L-C07 lemma_roundtrip_all) and the file system: that the blocks open() reads are the bytes the writer was handed (trusted FS layer)'],
     ),
@@ -53,10 +53,10 @@ PROPS = {
     'C05': dict(
         level='proof',
         explain='MemQueue/MemQueues/MultiRecordLog operations proved against the sequential queue-map spec (QView, LogView) written from the property text, '
-                'over the whole view; range / get_range / position_to_idx / MultiRecord::serialize are bounded Kani stand-ins, never counted as proved.',
-        kani_quick=[], kani_thorough=['K-p2i'] + ['K-getrange-r%d' % r for r in range(4)] + ['K-mrs-0', 'K-mrs-1'] + ['K-range-%s' % k for k in ('ii', 'ie', 'iu', 'ei', 'ee', 'eu', 'ui', 'ue', 'uu')],
+                'over the whole view; range / get_range / position_to_idx are bounded Kani stand-ins, never counted as proved.',
+        kani_quick=[], kani_thorough=['K-p2i'] + ['K-getrange-r%d' % r for r in range(4)] + ['K-range-%s' % k for k in ('ii', 'ie', 'iu', 'ei', 'ee', 'eu', 'ui', 'ue', 'uu')],
         trusted=['RollingBuffer::get_range (bounded K-getrange)', 'MemQueue::position_to_idx (bounded K-p2i)', 'MemQueue::range (bounded K-range)',
-                 'MultiRecord::serialize (bounded K-mrs-0/1: empty batch and one payload of <= 2 bytes; two payloads exceed 12 GB in CBMC)', 'HashMap::get_mut (assumed std contract)', 'RollingBuffer::extend'],
+                 'MultiRecord::{serialize,serialize_with_pos} are VERIFIED over the assumed contracts of bytes::Buf (R10: a cursor over a byte string; chunk() a non-empty prefix while bytes remain) and of (start..).zip(it) (R19); the payload iterator is assumed to obey vstd\'s iterator laws and to be finite (iter_ok, a precondition of append_records)', 'HashMap::get_mut (assumed std contract)', 'RollingBuffer::extend'],
         not_decided=['summary, list_queues (iterator adapters over HashMap): unverified', 'MemQueues::range / MultiRecordLog::range one-line pass-throughs'],
     ),
     'C06': dict(
@@ -118,8 +118,8 @@ PROPS = {
         level='proof',
         explain='One call = one entry carrying the whole serialized batch (O-C12-one); an entry is delivered only from an intact First..Last run (O-C12-deliver vs rec_step); '
                 'the batch is validated before any record of it is applied (O-C12-validate).',
-        kani_quick=[], kani_thorough=['K-mrs-0', 'K-mrs-1'],
-        trusted=[FS, 'MultiRecord::serialize (bounded K-mrs-0/1: empty batch and one payload of <= 2 bytes; two payloads exceed 12 GB in CBMC)'], not_decided=['torn-tail lemma over byte prefixes (needs a crash model)'],
+        kani_quick=[], kani_thorough=[],
+        trusted=[FS, 'MultiRecord::{serialize,serialize_with_pos} are VERIFIED over the assumed contracts of bytes::Buf (R10: a cursor over a byte string; chunk() a non-empty prefix while bytes remain) and of (start..).zip(it) (R19); the payload iterator is assumed to obey vstd\'s iterator laws and to be finite (iter_ok, a precondition of append_records)'], not_decided=['torn-tail lemma over byte prefixes (needs a crash model)'],
     ),
     'C13': dict(
         level='proof',
